@@ -132,7 +132,7 @@ fn b40_baselines() -> [B40; 3] {
 }
 
 /// the MB values of the register sweeps
-fn sweep_mbs(thorough: bool) -> Vec<u64> {
+pub fn sweep_mbs(thorough: bool) -> Vec<u64> {
     let mut v: Vec<u64> = vec![];
     for b in b40_baselines() {
         for x in 0..4096 {
